@@ -202,8 +202,10 @@ def gen_xml_tree(rng, allow_internal_entities=True):
     elem = {'k':'e', 'name':[prefix, local], 'ns':[[prefix, uri]], 'attrs':[[[prefix, local], [piece...]]], 'kids':[node]}
     node = elem | {'k':'t', 'pieces':[piece]} | {'k':'c', 'text':s} | {'k':'pi', 'target':s, 'data':s} | {'k':'cdata','text':s}
     piece = ['raw', s] | ['ent', name, value] | ['num', 'd'|'x', s(one char)] | ['ient', name] (internal entity, text only)
+          | ['xent', name] (external general entity declared in the internal subset ('xentities': [[name, sysid, pubid|None]]):
+            never fetched, the reference contributes nothing; text only)
     """
-    doc = {'decl': None, 'doctype': None, 'entities': [], 'prolog': [], 'epilog': []}
+    doc = {'decl': None, 'doctype': None, 'entities': [], 'xentities': [], 'prolog': [], 'epilog': []}
     r = rng.random()
     if r < 0.3:
         doc['decl'] = ['1.0', rng.choice([None, 'utf-8', 'UTF-8', 'iso-8859-1', 'utf-16', 'us-ascii', 'windows-1252', 'x-bogus']), rng.choice([-1, -1, 0])]
@@ -216,6 +218,9 @@ def gen_xml_tree(rng, allow_internal_entities=True):
         if allow_internal_entities and rng.random() < 0.5:
             for nme in rng.sample(['e1', 'foo', 'Bar'], rng.randrange(1, 3)):
                 doc['entities'].append([nme, rng.choice(['bar', 'x y', 'é', '', '&#233;t&#233;', 'a&amp;b'])])
+        if allow_internal_entities and rng.random() < 0.25:
+            for nme in rng.sample(['ext', 'X2'], rng.randrange(1, 3)):
+                doc['xentities'].append([nme, rng.choice(['f', 'http://example.org/e.xml', 'x.dtd']), rng.choice([None, None, '-//x//y'])])
 
     def misc():
         out = []
@@ -230,6 +235,7 @@ def gen_xml_tree(rng, allow_internal_entities=True):
     doc['epilog'] = misc()
     budget = [rng.choice([2, 5, 10, 20, 40])]
     ents = [e[0] for e in doc['entities']]
+    xents = [e[0] for e in doc['xentities']]
 
     def pieces(in_attr):
         out = []
@@ -240,6 +246,8 @@ def gen_xml_tree(rng, allow_internal_entities=True):
             elif r < 0.75:
                 n, v = rng.choice(HTML_ENT)
                 out.append(['ent', n, v])
+            elif xents and not in_attr and r > 0.95:
+                out.append(['xent', rng.choice(xents)])
             elif r < 0.9 or not ents:
                 c = rng.choice(['A', '<', '&', 'é', '\U0001F600', '\t', '\n', ' ', '\r', ' '])
                 out.append(['num', rng.choice('dx'), c])
@@ -317,7 +325,7 @@ def _piece_src(p, in_attr, q='"'):
         return '&%s;' % p[1]
     if p[0] == 'num':
         return '&#%d;' % ord(p[2]) if p[1] == 'd' else '&#x%x;' % ord(p[2])
-    if p[0] == 'ient':
+    if p[0] in ('ient', 'xent'):
         return '&%s;' % p[1]
     raise ValueError(p)
 
@@ -342,6 +350,8 @@ def _piece_val(doc, p):
         return p[2]
     if p[0] == 'ient':
         return _ent_value(doc, p[1])
+    if p[0] == 'xent':
+        return ''
 
 
 def write_xml(doc, rng=None):
@@ -405,8 +415,9 @@ def write_xml(doc, rng=None):
         elif sysid:
             ext = ' SYSTEM "%s"' % sysid
         internal = ''
-        if doc['entities']:
-            internal = ' [' + ''.join('<!ENTITY %s "%s">' % (n, v) for n, v in doc['entities']) + ']'
+        if doc['entities'] or doc.get('xentities'):
+            internal = ' [' + ''.join('<!ENTITY %s "%s">' % (n, v) for n, v in doc['entities']) + ''.join(
+                '<!ENTITY %s %s>' % (n, 'PUBLIC "%s" "%s"' % (pb, sy) if pb else 'SYSTEM "%s"' % sy) for n, sy, pb in doc.get('xentities', [])) + ']'
         out.append('<!DOCTYPE %s%s%s>' % (nme, ext, internal))
         out.append(rng.choice(['', '\n']))
     node(doc['root'])
